@@ -372,3 +372,55 @@ Definition handle2 (line : str) : str :=
       | None => match handle_e2e cmd ts with Some r => r | None => S_ "badrequest" end
       end
   end.
+
+(* ---------- property checkers applied to the implementation's outputs ---------- *)
+Require Import Laze.model.Checks.
+
+Definition find_binary (b : bag) (builder : nat) (app : str) : option module :=
+  (* the binary of that name whose context is the builder or an ancestor (first in bag order) *)
+  find (fun m => str_eqb (m_name m) app &&
+                 match m_context_id m with
+                 | Some ci => match is_ancestor (tree_fuel (bag_tree b)) (bag_tree b) ci builder 0 with
+                              | Ok (Some _) => true | _ => false end
+                 | None => false end) (binaries b).
+
+Definition check_modules (t : ytree) (c : cli) (builder app : str) (names : list str) : res (bool * bool * bool) :=
+  rbind (load t (S_ "laze-project.yml")) (fun b =>
+  rbind (cli_selects c) (fun sel =>
+  match bag_index b builder with
+  | None => Err (EOther (S_ "nobuilder"))
+  | Some bi =>
+      match find_binary b bi app with
+      | None => Err (EOther (S_ "noapp"))
+      | Some bin =>
+          let app' := build_binary bin builder sel in
+          let ms := modules_by_name b bi app' names in
+          let d0 := fold_left (fun a x => iset_insert x a) (cl_disable c) (collect_disabled b bi) in
+          Ok (closedb ms, exclusiveb d0 ms,
+              keys_okb b && prov_okb b bi && app_okb b bi bin)
+      end
+  end)).
+
+Definition handle_checks (cmd : str) (ts : list str) : option str :=
+  if str_eqb cmd (S_ "checkmods") then
+    Some (run (rd_bind rd_ytree (fun t => rd_bind rd_cli (fun c => rd_bind rd_s (fun bn => rd_bind rd_s (fun app =>
+               rd_bind (rd_list rd_s) (fun names => rd_ret (t, c, bn, app, names))))))) ts
+              (fun '(t, c, bn, app, names) =>
+                 show_res (fun r : bool * bool * bool =>
+                             S_ "ok " ++ (if fst (fst r) then S_ "1" else S_ "0") ++ S_ " " ++
+                             (if snd (fst r) then S_ "1" else S_ "0") ++ S_ " " ++ (if snd r then S_ "1" else S_ "0"))
+                          (check_modules t c bn app names)))
+  else None.
+
+Definition handle3 (line : str) : str :=
+  match tokens line with
+  | [] => S_ "badrequest"
+  | cmd :: ts =>
+      match handle_oracle cmd ts with
+      | Some r => r
+      | None => match handle_e2e cmd ts with
+                | Some r => r
+                | None => match handle_checks cmd ts with Some r => r | None => S_ "badrequest" end
+                end
+      end
+  end.
